@@ -169,7 +169,9 @@ def hlist_case(draw: Any) -> Dict[str, Any]:
     limit = draw(st.sampled_from([200, 1000, 4096]))
     return {"kind": "hlist", "limit": limit,
             "delta": draw(st.sampled_from([-100, -40, 0, 40, 100, 3000])),
-            "nheaders": draw(st.sampled_from([1, 3, 10])), "sched": draw(st.integers(0, 999))}
+            "nheaders": draw(st.sampled_from([1, 3, 10])), "sched": draw(st.integers(0, 999)),
+            # how the connection became HTTP/2: the limit belongs to the connection either way
+            "opening": draw(st.sampled_from(["prior", "prior", "h2c"]))}
 
 
 def header_list_size(hs: List[tuple]) -> int:
@@ -193,13 +195,19 @@ def run_hlist(case: Dict[str, Any]) -> CaseInfo:
     ack = SettingsFrame(0)
     ack.flags.add("ACK")
     b.add(ack)  # the server's SETTINGS (and so its limits) take effect once acknowledged
-    b.request(1, b"/w")
-    b.headers(3, base + extra, end_stream=True)
-    b.request(5, b"/w")
+    h2c = case.get("opening") == "h2c"
+    first = 3 if h2c else 1  # stream 1 is the upgraded request itself
+    b.request(first, b"/w")
+    b.headers(first + 2, base + extra, end_stream=True)
+    b.request(first + 4, b"/w")
     cfg = {"keep_alive_timeout": T_BIG, "h2_max_header_list_size": limit}
 
     async def sc(env: Any) -> Any:
         conn = env.connect()
+        if h2c:
+            conn.send(b"GET /w HTTP/1.1\r\nHost: example.com\r\nConnection: Upgrade, "
+                      b"HTTP2-Settings\r\nUpgrade: h2c\r\nHTTP2-Settings: AAMAAABkAAQAAP__\r\n\r\n")
+            await env.settle(5.0)
         conn.send(bytes(b.out))
         await env.settle(20.0)
         conn.eof()
@@ -212,7 +220,13 @@ def run_hlist(case: Dict[str, Any]) -> CaseInfo:
         tag = {"backend": be, "limit": "h2_max_header_list_size"}
         if conn.handler_exc is not None:
             raise Violation("handler_exception", repr(conn.handler_exc), **tag)
-        acct = FrameAccounting().decode(conn.received())
+        rx = conn.received()
+        if h2c:
+            end = rx.find(b"\r\n\r\n")
+            if not rx.startswith(b"HTTP/1.1 101") or end < 0:
+                raise Violation("h2c_upgrade_failed", repr(rx[:80]), **tag)
+            rx = rx[end + 4:]
+        acct = FrameAccounting().decode(rx)
         if acct.error:
             raise Violation("malformed_frames", acct.error, **tag)
         adv = [s.get(6) for s in acct.settings if 6 in s]
@@ -220,7 +234,7 @@ def run_hlist(case: Dict[str, Any]) -> CaseInfo:
             raise Violation("limit_not_advertised", f"SETTINGS_MAX_HEADER_LIST_SIZE {adv}, "
                             f"configured {limit}", **tag)
         served = any(i.scope.get("path") == "/x" for i in obs.instances)
-        s = acct.streams.get(3)
+        s = acct.streams.get(first + 2)
         if size <= limit - 64:
             if not served or s is None or bytes(s.data) != b"ok":
                 raise Violation("within_limit_not_served", f"header list of {size} bytes, limit "
@@ -243,7 +257,9 @@ def kamax_case(draw: Any) -> Dict[str, Any]:
     r = draw(st.sampled_from([0, 1, 1, 2, 3, 5]))
     return {"kind": "kamax", "proto": draw(st.sampled_from(["h1", "h2", "h2c"])), "r": r,
             "n": r + draw(st.sampled_from([-1, 0, 1, 2])), "pipelined": draw(st.booleans()),
-            "sched": draw(st.integers(0, 999))}
+            "sched": draw(st.integers(0, 999)),
+            # the application's own wish to keep the connection does not lift the limit
+            "app_conn": draw(st.sampled_from([None, None, "keep-alive", "Keep-Alive"]))}
 
 
 def run_kamax(case: Dict[str, Any]) -> CaseInfo:
@@ -309,8 +325,12 @@ def run_kamax(case: Dict[str, Any]) -> CaseInfo:
         await env.settle(20.0)
         return {"conn": conn, "client": client, "sent": sent}
 
+    prog = OK
+    if case.get("app_conn") and h1:
+        prog = [["recv_all"], ["respond", 200, [["content-length", "2"],
+                                                ["connection", case["app_conn"]]], ["ok"]]]
     for be in BACKENDS:
-        obs = run_sim(be, cfg, {"*": OK}, sc, sched=case.get("sched", 0))
+        obs = run_sim(be, cfg, {"*": prog}, sc, sched=case.get("sched", 0))
         conn = obs.value["conn"]
         tag = {"backend": be, "limit": "keep_alive_max_requests", "proto": case["proto"]}
         if conn.handler_exc is not None:
